@@ -4,6 +4,7 @@
 #include "item.h"
 #include "core_parser.h"
 #include <cassert>
+#include <stdexcept>
 
 namespace ratio
 {
@@ -56,7 +57,8 @@ namespace ratio
         // we procede with the assignment list..
         for (; il_idx < init_list.size(); il_idx++)
         {
-            assert(init_list[il_idx].second.size() == 1);
+            if (init_list[il_idx].second.size() != 1)
+                throw std::invalid_argument("the initializer of field '" + init_list[il_idx].first + "' must have exactly one expression..");
             itm.exprs.emplace(init_list[il_idx].first, dynamic_cast<const ast::expression *>(init_list[il_idx].second[0])->evaluate(*this, ctx));
         }
 
